@@ -1878,9 +1878,10 @@ func (x *Exec) extsyncCheck(p *Path, callee *ssa.Function, recv Val) {
 // extsyncCheckNamed: method `method` of the externally synchronised type tk is called on recv.
 func (x *Exec) extsyncCheckNamed(p *Path, tk, method string, recv Val) {
 	tc := x.e.cs.Types[tk]
-	if tc == nil || !tc.ExtSync || !tc.Mutators[method] {
+	if tc == nil || !tc.ExtSync || !(tc.Mutators[method] || tc.Readers[method]) {
 		return
 	}
+	write := tc.Mutators[method] // a reader needs the protecting lock in any mode, a mutator exclusively
 	calleeName := method
 	name := "extsync:" + method
 	if recv.K == KScalar && x.isFreshObj(p, recv.S) {
@@ -1926,7 +1927,7 @@ func (x *Exec) extsyncCheckNamed(p *Path, tk, method string, recv Val) {
 		x.oblige(p, "guard", name, "true", []string{"C09"}, "the owning object was created by this activation")
 		return
 	}
-	x.lockCheck(p, recv.Own.TKey, mu, recv.Own.Obj, recv.Own.Field+"."+calleeName+"()", true)
+	x.lockCheck(p, recv.Own.TKey, mu, recv.Own.Obj, recv.Own.Field+"."+calleeName+"()", write)
 }
 
 // frameGoalAt: like frameGoal, for the single object obj.
